@@ -96,7 +96,13 @@ def outcome(fn):
 def main():
     req = json.load(sys.stdin)
     out = []
-    if req.get("cwd"):
+    if req.get("cwd") == "@removed":
+        # a working directory that no longer exists (a scratch directory cleaned up under the process)
+        import tempfile
+        d = tempfile.mkdtemp(prefix="bbverif.", dir="/var/tmp")
+        os.chdir(d)
+        os.rmdir(d)
+    elif req.get("cwd"):
         os.chdir(req["cwd"])
     for item in req["items"]:
         kind = item["kind"]
